@@ -269,12 +269,17 @@ async fn do_sql(db: &Db, req: &Value) -> Value {
 }
 
 fn write_parquet(path: &PathBuf, schema: &SchemaRef, batches: &[RecordBatch], rg: usize) -> Result<(), String> {
+    write_parquet_opt(path, schema, batches, rg, true)
+}
+
+fn write_parquet_opt(path: &PathBuf, schema: &SchemaRef, batches: &[RecordBatch], rg: usize, dict: bool) -> Result<(), String> {
     use parquet::arrow::ArrowWriter;
     use parquet::file::properties::{EnabledStatistics, WriterProperties};
     let f = std::fs::File::create(path).map_err(|e| e.to_string())?;
     let props = WriterProperties::builder()
         .set_max_row_group_row_count(Some(rg.max(1)))
         .set_statistics_enabled(EnabledStatistics::Chunk)
+        .set_dictionary_enabled(dict)
         .build();
     let mut w = ArrowWriter::try_new(f, schema.clone(), Some(props)).map_err(|e| e.to_string())?;
     for b in batches {
@@ -426,6 +431,31 @@ fn main() {
                 },
                 "sql" => match dbs.get(&dbname) {
                     Some(db) => rt.block_on(do_sql(db, &req)),
+                    None => json!({"ok": false, "err": "Driver", "msg": "no db"}),
+                },
+                "pq_write" => (|| -> Result<Value, String> {
+                    // write one Parquet file at an absolute path (C19: rewriting a registered file)
+                    let path = PathBuf::from(req["path"].as_str().ok_or("path")?);
+                    if let Some(parent) = path.parent() {
+                        std::fs::create_dir_all(parent).map_err(|e| e.to_string())?;
+                    }
+                    let mut fields = Vec::new();
+                    for c in req["cols"].as_array().ok_or("cols")? {
+                        fields.push(Field::new(c[0].as_str().ok_or("col name")?, codec::parse_type(c[1].as_str().ok_or("col type")?)?, true));
+                    }
+                    let schema: SchemaRef = Arc::new(Schema::new(fields));
+                    let rows = req["rows"].as_array().ok_or("rows")?;
+                    let b = codec::build_batch(&schema, rows, 0, rows.len())?;
+                    write_parquet_opt(&path, &schema, std::slice::from_ref(&b), req["rg"].as_u64().unwrap_or(1 << 20) as usize, req["dict"].as_bool().unwrap_or(true))?;
+                    let len = std::fs::metadata(&path).map_err(|e| e.to_string())?.len();
+                    Ok(json!({"ok": true, "len": len}))
+                })()
+                .unwrap_or_else(|e| json!({"ok": false, "err": "Driver", "msg": e})),
+                "reg_path" => match dbs.get_mut(&dbname) {
+                    Some(db) => match db.ctx.register_parquet(req["table"].as_str().unwrap_or("t").to_string(), &PathBuf::from(req["path"].as_str().unwrap_or(""))) {
+                        Ok(_) => json!({"ok": true}),
+                        Err(e) => err_json(&e),
+                    },
                     None => json!({"ok": false, "err": "Driver", "msg": "no db"}),
                 },
                 "sched" => match dbs.get(&dbname) {
